@@ -1505,6 +1505,13 @@ pub fn create_simple_plan(
     use crate::configure_walker;
     use regex::Regex;
 
+    if pattern.is_empty() && !is_regex {
+        // A literal search for the empty string matches everywhere and never advances
+        return Err(anyhow::anyhow!(
+            "invalid pattern: the search pattern is empty"
+        ));
+    }
+
     let root = paths.first().cloned().unwrap_or_else(|| PathBuf::from("."));
     let paths = if paths.is_empty() {
         vec![PathBuf::from(".")]
